@@ -70,10 +70,10 @@ def judgeSelf (tag : String) (sz S pred : Rat) (c : Contact3 Rat) (memb : List S
       else if q m2 > wtol then s!"fail witness2-not-on-its-shape {tag}{touch} off-by={m2}"
       else "pass"
 
-def handler (fn : String) : Option Handler :=
+def handlerCore (fn : String) : Option Handler :=
   match fn with
   | "d_contact" | "d_distance" | "d_it" | "d_cp" | "q_contact" | "q_distance" | "q_it" | "q_cp"
-  | "w_contact_ball_cp" => C03.handler fn
+  | "w_contact_ball_cp" | "x_contact" | "x_cp" | "x_distance" | "x_it" => C03.handler fn
   | "v_closed" => some {
       model := fun a => run (do
         let (s1, s2, m, margin, pred) ← pVClosed
@@ -121,7 +121,7 @@ def handler (fn : String) : Option Handler :=
               | .cuboid h1, .cuboid h2 => satCuboids (q3 h1) (qiso3 m1) (q3 h2) (qiso3 m2)
               | _, _ => match s1.closed, s2.closed with
                 | some a, some b => (worldPair a m1 b m2).sep.map (·.1)
-                | _, _ => none
+                | _, _ => (XPair.sep ⟨s1, qiso3 m1, s2, qiso3 m2⟩).map (·.1)   -- ball against segment / triangle / capsule
             match exact with
             | some sep =>
               if sep > t then (if allAre vs false then "pass" else s!"fail verdicts-disagree {pair} exact-separation={sep.toF} got={vs}")
@@ -207,5 +207,8 @@ def handler (fn : String) : Option Handler :=
             | _ => "fail unparsable-output"
         | none => "skip bad-args" }
   | _ => none
+
+/-- every C02 oracle starts with the totality clause (`fail non-finite-output …`, see `C03.guardFinite`) -/
+def handler (fn : String) : Option Handler := (handlerCore fn).map (guardFinite fn)
 
 end C02
